@@ -21,6 +21,16 @@ from harness import core
 
 LEVEL = "model_checking"
 
+
+def selftest(ck, name, rejected):
+  """A binding self-test compares a corrupted expectation with the REAL code; if the code under
+  test is itself wrong (violations already recorded) a corrupted expectation may coincide with
+  it - that must not mask the violations behind a machinery error."""
+  if rejected or not ck.violations:
+    ck.selftest(name, rejected)
+  else:
+    ck.cov.setdefault("selftests_inconclusive_under_violation", []).append(name)
+
 TOL32 = 5e-4      # mass-space comparisons, relative to the history's trace, float32 code paths
 TOL64 = 1e-9      # the same under jax_enable_x64 with float64 state
 VTOL = 300        # measured margins, units of tr(C) / 1e6
@@ -322,7 +332,7 @@ def run(ck):
     sub.work = ck.work
     jobs = direct_jobs(sub, [bad], impl, x64)
     judge(sub, jobs, core.run_workers("harness.workers.fd_direct", jobs, x64=x64, work=ck.work), "selftest", "direct", {})
-    ck.selftest(f"R: corrupted expected escaped mass is flagged ({impl})",
+    selftest(ck, f"R: corrupted expected escaped mass is flagged ({impl})",
                 any(v[0].endswith("|tail") or "tail" in v[0] for v in sub.violations))
   mark("R_selftest")
   # through the optimizers
@@ -360,9 +370,9 @@ def run(ck):
   sub = core.Check(ck.pid, ck.level, ck.tier, ck.seed); sub.work = ck.work
   vs = sub.validate("FD_Trace", "FD_Trace",
                     [{"cfg": dict(t["cfg"], tol=VTOL, otol=VTOL), "events": t["events"]} for t in (t0, t1, t2)])
-  ck.selftest("V: escaped mass off by 0.5% of the trace is rejected (tail_law)", vs[0]["verdict"] == "tail_law")
-  ck.selftest("V: covariance exceeding sketch + tail is rejected", not vs[1]["accepted"])
-  ck.selftest("V: non-orthonormal columns are rejected", not vs[2]["accepted"])
+  selftest(ck, "V: escaped mass off by 0.5% of the trace is rejected (tail_law)", vs[0]["verdict"] == "tail_law")
+  selftest(ck, "V: covariance exceeding sketch + tail is rejected", not vs[1]["accepted"])
+  selftest(ck, "V: non-orthonormal columns are rejected", not vs[2]["accepted"])
   ck.assume("R: FD is rotation-equivariant; axis-aligned histories rotated by a seeded random orthogonal Q are "
             "dense for the implementation and diagonal for the spec")
   ck.assume("R: has_zeros / zeroed columns are discontinuous in the last bit where a slot is exactly empty or "
